@@ -345,20 +345,28 @@ func c19FlushOrder(r *core.Report) {
 		return
 	}
 	info := f.Pkg.TypesInfo
-	g := p.Graph(f)
-	// the send inside a range over a slice sorted strictly ascending
+	anchor := f
+	// the send inside a range over a slice sorted strictly ascending - in flush itself or in the per-slot helper it calls
 	var sendNode *core.GNode
-	for _, n := range stmtNodes(g) {
-		for _, c := range nodeCalls(n) {
-			if strings.HasSuffix(core.CalleeName(info, c), ".Send") {
-				sendNode = n
+	var sendFn *core.Func
+	for _, fn := range pkgScope(p, anchor, 1) {
+		if fn.Lit != nil {
+			continue
+		}
+		for _, n := range stmtNodes(p.Graph(fn)) {
+			for _, c := range nodeCalls(n) {
+				if strings.HasSuffix(core.CalleeName(info, c), ".Send") && sendNode == nil {
+					sendNode, sendFn = n, fn
+				}
 			}
 		}
 	}
 	if sendNode == nil {
-		r.Undecided(rule, f.Key+"#send", posP(r, f.Pos()), "send not found")
+		r.Undecided(rule, anchor.Key+"#send", posP(r, anchor.Pos()), "send not found")
 		return
 	}
+	f = sendFn
+	g := p.Graph(f)
 	rs := enclosingRange(f.Body, sendNode.Ast)
 	okSort := false
 	why := "the send loop does not range over a slice sorted with a strict ascending comparator"
@@ -377,7 +385,8 @@ func c19FlushOrder(r *core.Report) {
 			why = "the send loop does not range over a slice sorted with a strict ascending comparator: " + why
 		}
 	}
-	r.Check(okSort, rule, f.Key+"#positions-ascending", pos(r, sendNode.Ast), "positions of a slot are sent in strictly ascending order", why)
+	r.Check(okSort, rule, anchor.Key+"#positions-ascending", pos(r, sendNode.Ast), "positions of a slot are sent in strictly ascending order", why)
+	f = anchor
 	// slots walk upward: an increment of currentSlot in a for loop bounded by endSlot
 	inc := false
 	ast.Inspect(f.Body, func(n ast.Node) bool {
